@@ -606,6 +606,8 @@ class C14(Prop):
     harness = "h_getopts.c"
     theorems = ["EaselModel.Props.C14." + t for t in (
         "sources_are_setting_sequences_env", "sources_are_setting_sequences_cfg", "sources_are_setting_sequences_cmdline",
+        "spoof_is_cmdline_of_its_words", "cfg_line_name_arg", "cfg_line_flag", "cfg_line_missing_argument", "cfg_line_unknown_option",
+        "long_option_eq_form", "long_option_sep_form", "long_flag_form", "short_option_attached_form", "short_option_sep_form", "concatenated_short_flags",
         "successful_run_is_history", "successful_cfgfile_is_history", "successful_cmdline_is_history", "last_setter_wins", "untouched_keeps_state", "fresh_object_all_default", "reuse_restores_defaults",
         "same_source_twice_is_usage_error", "set_after_toggle_by_same_source_is_usage_error",
         "set_option_spec", "toggle_switches_others_off", "optlist_element_denotes_named_option", "optlist_reads_back_names",
@@ -614,7 +616,7 @@ class C14(Prop):
         "every_history_ends_cleanly", "cmdline_ends_cleanly", "spoof_ends_cleanly", "environment_ends_cleanly", "configfile_ends_cleanly",
         "setting_succeeds_iff", "integer_argument_syntax", "rejected_setting_changes_nothing", "unknown_long_option", "ambiguous_long_option", "argument_to_flag",
         "missing_argument_long", "unknown_short_option", "verifyConfig_ok_iff_consistent",
-        "int_range_two_sided", "int_range_lower", "int_range_upper", "range_string_two_sided", "char_range_two_sided",
+        "int_range_two_sided", "int_range_lower", "int_range_upper", "range_string_two_sided", "char_range_two_sided", "real_range_two_sided", "real_range_lower", "real_range_upper",
         "isUsed_iff", "isDefault_of_default_setter", "not_default_has_setter", "demo_wf")]
     claimed = True
     diverge_is_violation = True    # every op is a deterministic documented function of (table, sources so far)
@@ -628,7 +630,7 @@ class C14(Prop):
                   "IsUsed = not IsDefault and IsOn. The hand model is tied to the working tree by an exact differential run (12000 random tables x sources per quick run); a divergence or monitor failure is a concrete failing input.")
     level_note = ("Trusted: Lean kernel + propext/Classical.choice/Quot.sound; fidelity of the hand model (incl. its strtol/strtod/strtok/fgets models) is checked, not proved, by the differential run; "
                   "'+/- prefixed booleans' clause is vacuous in this version (a '+' word is an argument: theorem plus_word_is_argument); well-formed tables only; reals restricted to <= 6 significant digits; "
-                  "integer and character range strings of the documented forms are proved to mean the intended bounds; for real-valued bounds (strtod prefix parse) this is checked by examples and the differential run only.")
+                  "integer, character and real range strings of the documented forms are proved to mean the intended bounds (reals: order of the denoted rationals; that atof reads exactly the lower-bound literal at the start of a two-sided real range string is checked by examples and the differential run only).")
     trusted_base = ["hand model of esl_getopts.c (+ esl_str_IsInteger/IsReal, esl_strtok from easel.c) tied by exact differential run (h_getopts.c, ASan+UBSan build of the working tree)",
                     "Lean compiler/runtime for the executable driver", "gcc, glibc strtol/strtod/getenv/fgets"]
     assumptions = [
@@ -774,16 +776,16 @@ class C14(Prop):
                 return "option %d: IsOn=%s but value %s" % (i, ison, val)
             if isused != ((not isdef) and ison):
                 return "option %d: IsUsed=%s with IsDefault=%s IsOn=%s" % (i, isused, isdef, ison)
-            if setby == "0" and not (isdef and val == de):
+            same = (val == de) if ty != 0 else ((val == "~") == (de == "~"))    # booleans: only on/off is observable
+            if setby == "0" and not (isdef and same):
                 return "option %d: setter is default but value %s / IsDefault %s (default %s)" % (i, val, isdef, de)
-            if isdef != (setby == "0" or val == de):
+            if isdef != (setby == "0" or same):
                 return "option %d: IsDefault=%s with setter %s value %s default %s" % (i, isdef, setby, val, de)
             if ty == 0:
                 if typed != ("b1" if ison else "b0"):
                     return "option %d: GetBoolean %s but IsOn %s" % (i, typed, ison)
-            elif val in ("~", "1"):
-                if val == "1":
-                    return "option %d: non-boolean option holds the TRUE marker" % i
+            elif val == "~":
+                pass
             elif ty == 1:
                 s = unhx(val)
                 try:
